@@ -352,7 +352,8 @@ program!(
         let n0 = l[0].mul(&l[1]);
         let n1 = n0.mul(&l[1]);
         let n2 = l[2].mul(&n0);
-        let n3 = n2.add(&n1);
+        // n1 first: the same-shape contribution reaches n0 before the broadcast one
+        let n3 = n1.add(&n2);
         vec![n0, n1, n2, n3]
     }
 );
